@@ -70,20 +70,21 @@ CHECKS = {'C01': {'text': 'Lean theorems about an interleaving transition system
          'technique': 'Lean 4 proof (generated finite table + inductive invariants over op histories) + executing translator + differential '
                       'correspondence on real contexts + ideal-lock oracle'},
  'C05': {'text': 'Lean theorems over every class table (MRO of member tables name↦kind + instance dict) and every name (all strings via an injective '
-                 'encoding, proved): dispatch_sound (WellFormed C → ∀n, invokable↔advertised ∧ (¬invokable → no effects ∧ unknown-RPC reply)), '
-                 'absent_name_rejected, invokable_only_declared, protected_names_never_advertised/_rejected, wellFormed_iff (WellFormed ⇔ property '
-                 'at every name), dispatch_sound_partial. Gen/RpcClasses*.lean regenerated on every run from the live classes (94 QMI_RpcObject '
-                 'classes, vars() along the MRO, @rpc_method declarations from the class-body AST, instance dict, probed protected list): 83 '
-                 'wf_<Class> by kernel evaluation, 11 wf_partial_<Class> + 23 computed negation witnesses (property getters). Tie: every class '
+                 'encoding, proved), for the repaired dispatcher (static lookup, b296ced). For EVERY class: rejected_runs_nothing, '
+                 'effects_only_call, invokable_iff_advertised_of_unshadowed, absent_name_rejected, protected_names_never_advertised, '
+                 'protected_names_rejected_of_constructible. For well-formed classes: dispatch_sound (∀n, invokable↔advertised ∧ (¬invokable → no '
+                 'effects ∧ unknown-RPC reply)), invokable_only_declared, wellFormed_iff. Gen/RpcClasses*.lean regenerated on every run from the '
+                 'live classes (94 QMI_RpcObject classes): 94/94 wf_<Class> by kernel evaluation, no exceptions; 110 theorems. Tie: every class '
                  'instance behind the real RpcObjectManager/_RpcThread, hand-built method requests for dir(obj) ∪ dunders ∪ near-misses ∪ random '
                  'strings (34k quick / 140k thorough) with a sys.setprofile tap, diffed against the Lean driver; ~1200 (quick) generated hierarchies '
-                 'through the real metaclass/descriptor/dispatch.',
+                 '(properties, cached properties, static/class methods, callables, hooks, overrides, protected names) through the real '
+                 'metaclass/descriptor/dispatch code.',
          'note': 'Trusted: Lean kernel + 3 axioms; translator (member classification, AST reading of decorators, fake construction; 12 classes built '
-                 'via __new__); CPython attribute lookup/getmembers mirrored and validated differentially; getter results opaque; post-construction '
-                 'instance attributes, non-str names and the lock-token test are outside. 18 known findings (property getters run on lookup: _lib, '
-                 '_model, _ttreadmax, _max_dev_num, _ps_attr, controller_address).',
-         'technique': 'Lean 4 proof (generic theorem + generated per-class obligations by decide +kernel) + differential correspondence of every '
-                      'shipped and generated class through the real dispatch path'},
+                 'via __new__); inspect.getattr_static / getmembers mirrored and validated differentially; instance attributes assigned after '
+                 'construction, non-str names, classes overriding __getattribute__ and the lock-token test are outside. No open findings; 18 fixed '
+                 '(b296ced: property getters ran on lookup); the reverted fix is caught with concrete inputs.',
+         'technique': 'Lean 4 proof (generic theorems, several unconditional, + generated per-class obligations by decide +kernel) + differential '
+                      'correspondence of every shipped and generated class through the real dispatch path'},
  'C06': {'text': 'Lean theorems over all byte strings, segmentations, payload lists, handler/pending/connection tables (induction, no bounds) about '
                  'a branch-by-branch model of _PeerTcpConnection (_receive_data loop, _process_message, close/_clear_pending_requests, send_message, '
                  'receive_handshake) and _SocketManager: chunking_invariance / all_segmentations / single_bytes, frame_roundtrip, '
@@ -238,48 +239,51 @@ CHECKS = {'C01': {'text': 'Lean theorems about an interleaving transition system
  'C16': {'text': 'Lean theorems over all lines/texts/trees/type descriptors (mutual structural recursion, no bounds): strip_exact, '
                  'strip_comments_exact, load_ignores_comments, duplicate_key_rejected/load_ok_iff, strip_render_id + load_dump_roundtrip (json as '
                  'parameter), admits_iff (parser = independent inductive spec Admits), admits_functional, roundtrip (parseValue τ (toDict v) = ok '
-                 'v), error_names_item, offending_is_rejected/accepted_iff_no_offender, ctor_revalidation_noop, shipped_wf/shipped_roundtrip for the '
-                 'structs regenerated from config_defs.py. only_config_error is FALSE on the pinned tree: only_config_error_partial + '
-                 'escaping_exceptions isolate the two exact classes (non-sized value in a fixed Tuple -> TypeError; int beyond float range -> '
-                 'OverflowError), negation witnesses proved and replayed (KNOWN-FINDING x5). Model tied to the code by ~30k quick / ~900k thorough '
-                 'differential cases on real @configstruct classes generated from random descriptors, plus a direct statement-level oracle.',
+                 'v), only_config_error at FULL strength + parse_total (every outcome is a structure or a QMI_ConfigurationException), '
+                 'error_names_item, offending_is_rejected/accepted_iff_no_offender, nonsized_is_mismatch, hugeint_is_mismatch, float_boundary, '
+                 'ctor_revalidation_noop, shipped_wf/shipped_roundtrip for the structs regenerated from config_defs.py. 32 theorems, all full '
+                 'strength. Model tied to the code by ~30k quick / ~900k thorough differential cases on real @configstruct classes generated from '
+                 'random descriptors, plus a direct statement-level oracle.',
          'note': 'Trusted: Lean kernel + 3 standard axioms; translator (dataclasses.fields -> Gen/CfgDefs.lean) and harness; json.loads/dumps as '
                  'parameters (round trip assumed, dumps(indent=4) layout compared differentially); regex of _strip_comments re-implemented as a '
-                 'scanner (differential only); floats opaque (repr, float(int) resolved by Python); Python repr of dict keys in paths; recursion '
-                 'limit, non-string keys, init=False fields, bare list/dict types out of scope.',
+                 'scanner (differential only); floats opaque; recursion limit, non-string keys, init=False fields, bare list/dict types out of '
+                 'scope. 0 known findings; 5 signatures fixed (98ede17 TypeError from len() of a non-sized value in a fixed Tuple field; f71d1e5 '
+                 'OverflowError from float() of a huge int); reverting either fix yields a VIOLATION with a concrete input.',
          'technique': 'Lean 4 proof (parser sound+complete against an inductive admission relation, round-trip and error-spec theorems, generated '
                       'per-struct obligations by decide) + differential correspondence + independent property oracle'},
- 'C17': {'text': 'Lean theorems (30): text attributes — attr_roundtrip is false on the pinned tree, kept as comment with attr_roundtrip_partial (all '
-                 'strings below U+10000 or printable, all ints/bools, floats in float.__repr__ form) + negation witnesses (numpy scalar repr, '
-                 'non-printable astral chars); text layout — reshape_roundtrip, scale_recovered, index_column_is_coordinate, layout_roundtrip for '
-                 'all shapes; HDF5 mapping — hdf5_roundtrip, reserved names rejected, empty label ↔ absent attribute; store — no_silent_overwrite '
-                 'over all histories, make_folder_fresh, lex_eq_numeric, find_latest_is_max; recorder — recorder_invariant (file ++ local ++ shared '
-                 '= recorded) over all interleavings, all_blocks_after_close, writer_finishes. Tie: generated datasets through 7 write/read/convert '
-                 'paths (hdf5, text, hdf5→text, text→hdf5, hdf5→text→hdf5 …) in a temp dir, store histories on a real temp dir, recorder with real '
-                 'h5py and the writer thread line-stepped (sys.settrace) at every position; diff with the Lean driver + direct oracle.',
+ 'C17': {'text': 'Lean theorems (27, all full strength): attr_roundtrip (text attribute value round trip for every valid str/int/bool/float, every '
+                 'isprintable classification), reshape_roundtrip, scale_recovered, index_column_is_coordinate, layout_roundtrip for all shapes; '
+                 'hdf5_roundtrip, reserved names rejected, empty label ↔ absent attribute; no_silent_overwrite over all histories, '
+                 'make_folder_fresh, lex_eq_numeric, find_latest_is_max; recorder_invariant (file ++ local ++ shared = recorded) over all '
+                 'interleavings, all_blocks_after_close, writer_finishes. Tie: generated datasets through 7 write/read/convert paths (hdf5, text, '
+                 'hdf5→text, text→hdf5, hdf5→text→hdf5 …) in a temp dir, store histories incl. related-label families on a real temp dir, recorder '
+                 'with real h5py and the writer thread line-stepped (sys.settrace) at every position; diff with the Lean driver + direct oracle.',
          'note': "Trusted: Lean kernel + 3 axioms; h5py/HDF5, numpy savetxt/loadtxt/reshape, the file system (open 'x'/mkdir atomic), CPython "
                  'repr/float/int and str.isprintable (abstract parameter), strftime; datastore/dataset regexes re-implemented and diffed; recorder '
-                 'atomicity taken from the lock in the code. 9 known-finding signatures (numpy-scalar repr after HDF5→text, astral \\\\U escape, '
-                 'ints beyond 2^53 through %.18e, line break in attribute name, `$`-before-newline in datastore regexes).',
+                 'atomicity taken from the lock in the code. 5 defects found by the check were repaired in /repo (4c93d47 numpy scalars after HDF5 '
+                 'read, 1c58093 \\\\U escapes, 37955b4 inexact integers now refused loudly instead of rounded, 4ddf66d line break in attribute name, '
+                 '7d3961f `$`-before-newline in datastore regexes; 9 signatures recorded as fixed); each reverted fix is re-detected with a concrete '
+                 'input.',
          'technique': 'Lean 4 proof (round-trip laws, history invariants, interleaving invariant of the recorder) + differential correspondence on '
                       'real files + line-stepped trace refinement of the recorder'},
- 'C18': {'text': 'Lean theorems for every packet layout passing WellFormed (the live ctypes layout, MAGIC, enum, lookup table and recvfrom sizes are '
-                 'regenerated into Gen/DiscoveryLayouts.lean on every run; gen_layout_wf by decide): glob_sound_complete (state-set matcher = '
-                 'inductive shell-pattern semantics, all patterns/names; bracket handling reproduces CPython 3.12 fnmatch.translate incl. unclosed '
-                 "'[', '[]..]', empty ranges), unpack_total/unpack_complete/unpack_valueError_iff, respond_iff_partial (answers iff both filters "
-                 'match, for names that fit the 64-byte fields; the unrestricted statement is proved false from a replayed witness), '
-                 'echo_fields/echo_values (request id and timestamp bit-exact, pid, port, names up to exactly the field size), junk_ignored + '
-                 'junk_then_answers, client_filters/client_never_self, discovery_end_to_end (uses a proved UTF-8 decode∘encode = id). Tied to the '
-                 'code by differential runs of the real _UdpResponder (reader callback on a fake datagram socket, directly and under a real asyncio '
-                 'loop) and of discover_peer_contexts on a fake socket/selector/clock, a three-way glob diff (Lean / fnmatch.fnmatchcase / '
-                 'responder), exhaustive bracket bodies, every truncation length, tag values, bit-level id/timestamp sweeps; direct oracle on every '
-                 'trace.',
+ 'C18': {'text': 'Lean theorems for every packet layout passing WellFormed (live ctypes layout, MAGIC, enum, lookup table, recvfrom sizes and the '
+                 'is_valid_object_name limit are regenerated into Gen/DiscoveryLayouts.lean on every run; gen_layout_wf by decide): '
+                 'glob_sound_complete (state-set matcher = inductive shell-pattern semantics, all patterns/names; brackets reproduce CPython 3.12 '
+                 'fnmatch.translate), unpack_total/unpack_complete/unpack_valueError_iff, respond_iff (answers iff both filters match, for EVERY '
+                 'context QMI_Context.__init__ admits), admit_only_reportable, echo_fields/echo_admitted, junk_ignored + junk_then_answers, '
+                 'client_filters/client_never_self, discovery_end_to_end (uses a proved UTF-8 decode∘encode = id). 24 theorems, all full strength. '
+                 'Tied to the code by differential runs of the real _UdpResponder (reader callback on a fake datagram socket, directly and under a '
+                 'real asyncio loop), of discover_peer_contexts on a fake socket/selector/clock and of the real QMI_Context constructor (admission), '
+                 'a three-way glob diff (Lean / fnmatch.fnmatchcase / responder), exhaustive bracket bodies, every truncation length, tag values, '
+                 'bit-level id/timestamp sweeps; direct oracle on every trace.',
          'note': 'Trusted: Lean kernel + 3 standard axioms; translator and harness; asyncio containment of exceptions leaving _handle_read '
                  '(ValueError of the enum lookup, UnicodeDecodeError of a non-UTF-8 filter) is assumed in the model and exercised under a real event '
-                 'loop; ctypes, fnmatch/re and UTF-8 are re-implemented and diffed, not verified; UDP/selectors/the 0.1 s window are faked. Known '
-                 'findings: an over-64-byte or NUL-containing workgroup name (unvalidated config) breaks answering/echo.',
-         'technique': 'Lean 4 proofs (derivative-based matcher vs inductive spec, packet round-trips, invariance under junk, end-to-end composition) '
-                      '+ regenerated layout obligation + differential correspondence with the real responder and asker'},
+                 "loop; ctypes, fnmatch/re, UTF-8 and the constructor's name checks are re-implemented and diffed, not verified; UDP/selectors/the "
+                 '0.1 s window are faked. Fixed by eeba404 (found by this check): unvalidated workgroup names longer than 64 bytes / containing NUL '
+                 'broke answering and the echoed workgroup.',
+         'technique': 'Lean 4 proofs (derivative-based matcher vs inductive spec, packet round-trips, invariance under junk, admission => '
+                      'reportable, end-to-end composition) + regenerated layout obligation + differential correspondence with the real responder, '
+                      'asker and context constructor'},
  'C19': {'text': 'Lean theorems over an abstract open()/close() program language (fuel-based semantics, state = flag, open links, device log; fault '
                  'plan = the k-th potentially-raising step raises kind κ): fault_beyond_end (∀ plan reduces to a finite table), all_plans_of_table; '
                  'consistent_of_safe (a plan-independent abstract run, sound by chk_sound, accepts ⇒ consistent under every plan, any nesting and '
